@@ -857,6 +857,21 @@ for _pid in ("C01", "C09", "C02"):
     PROPERTIES[_pid]["rules"] += [("PARAMSHADOW", lambda ctx: rule_paramshadow(ctx.lib))]
     PROPERTIES[_pid]["explanation"] += " (PARAMSHADOW) In the checker the parameters of a function are registered in a scope opened after (inside) the registration of the function itself, so a parameter named like the function shadows it, as it does in the compiler."
 
+from dtoaround import rule_dtoaround  # noqa: E402
+
+PROPERTIES["C08"]["rules"] += [("DTOAROUND", lambda ctx: rule_dtoaround(ctx.lib))]
+PROPERTIES["C08"]["explanation"] += " (DTOAROUND) A value printed through pretty_dtoa with `max_decimal_digits(p).round()` is rounded to p decimals in the crate first: pretty_dtoa 0.3.0 overflows (`digits.len() - 1`) when every digit is cut off and the remainder rounds up, which aborted the rendering of ordinary assert_eq failures."
+
+from expform import rule_expform  # noqa: E402
+
+PROPERTIES["C15"]["rules"] += [("EXPFORM", lambda ctx: rule_expform(ctx.lib))]
+PROPERTIES["C15"]["explanation"] += " (EXPFORM) The printer of written type annotations branches on the spelling the parser recorded for a power and formats a superscript exponent with the same crate::arithmetic formatter as the inferred-type printer, so the echo of an inferred type is a fixed point of echo/re-read."
+
+from panicapi import rule_panicapi  # noqa: E402
+
+PROPERTIES["C08"]["rules"] += [("PANICAPI", lambda ctx: rule_panicapi(ctx.lib))]
+PROPERTIES["C08"]["explanation"] += " (PANICAPI) Dependency functions that are known, by reading them, to panic on a condition of the host environment (plotly::Plot::show without an HTML viewer) are called only inside the closure handed to catch_unwind."
+
 NOT_APPLICABLE = {
     "C03": "numerical agreement of conversion factors over 500 units is a statement about run-time values; no structural clause is a necessary condition that is not already covered under C04/C11/C12 (static analysis cannot bound the arithmetic)",
     "C14": "a statement about the decimal rendering of every f64 under every format setting; the code delegates to pretty_dtoa/num_format and no structural clause of Number::pretty_print_with_dtoa_config can be decided without evaluating it",
